@@ -454,7 +454,7 @@ class Tally:
             self.count("exit_code_ops_traced", len(obs["exit_trace"]))
         if any(c != "formatted" for c in mdl["classes"]):
             self.nontrivial.add(ftree.case_key(self.prop, case, mdl))
-            if len(self.samples) < 3 and len(case["files"]) <= 6:
+            if len(self.samples) < 3 and 2 <= len(mdl["selected"]) and len(case["files"]) <= 6 and len(mdl["classes"]) >= 2:
                 self.samples.append(ftree.short_case(case, mdl, obs))
         for f in findings:
             self.report(case, obs, f)
@@ -503,7 +503,7 @@ def run(tier, seed):
     try:
         cases = pinned_cases(lf, tier)
         rng = clilib.Rng(seed * 1000003 + 13)
-        for _ in range(110 if tier == "quick" else 2300):
+        for _ in range(110 if tier == "quick" else 4000):
             cases.append(random_case(rng, lf, tier, check=True))
         tally = Tally(PROP, lf, judge, exec13)
         ftree.run_all(cases, exec13, tally.on_result)
